@@ -259,6 +259,11 @@ def analyse_call(eng, n, fr, roots, cls, stack, aliases):
         if m == "fun" and base_name in ("self", "function_logger"):
             fr.may_call_target = True
             return
+        if m == "record" and n.args and isinstance(n.args[0], ast.Constant) and isinstance(n.args[0].value, str) and recv is not None and _root(recv) in roots \
+                and base_name in ATTR_CLASS and ATTR_CLASS[base_name] == "IterationHistory":
+            # IterationHistory.record with a literal key touches exactly that key (assumed contract, bounded-checked)
+            fr.paths.add(recv + "[" + repr(n.args[0].value) + "]")
+            return
         c = None
         if base_name == "self" and cls:
             c = cls
